@@ -2,6 +2,12 @@ package main
 
 // Checks is the registry: which harness entry points decide which property, under which bounds.
 var Checks = []Check{
+	{ID: "C13", Entries: []Entry{
+		{Pkg: "net/proto", Func: "VerifC13SenderLink", Params: map[string]int64{"maxpool": 4, "resize": 1}, Thorough: map[string]int64{"maxpool": 8},
+			What: "real SendPID/send twice for symbolic 64-bit from/to ids over a pool of 1..N sink links (optionally grown in between): same link, same order byte"},
+		{Pkg: "net/proto", Func: "VerifC13ReceiverQueue", Params: map[string]int64{"maxpool": 3}, Thorough: map[string]int64{"maxpool": 6},
+			What: "two real frames for a symbolic receiver id through the real serve/read: same receive queue, arrival order kept"},
+	}},
 	{ID: "C11", Entries: []Entry{
 		{Pkg: "net/edf", Func: "VerifC11Ints", Shards: 10, What: "real Encode -> Decode of every integer kind with a symbolic value"},
 		{Pkg: "net/edf", Func: "VerifC11Scalars", Shards: 6, Params: map[string]int64{"maxlen": 3}, Thorough: map[string]int64{"maxlen": 8},
